@@ -104,6 +104,15 @@ def verdict(st, spec, t, text='this.mString'):
             if differs(st, x, ch):
                 return 'mismatch' if kind == 'char_eq' else 'match'
         return None
+    if kind in ('in_set_n', 'not_in_set_n'):
+        region = spec.test[1]
+        for g in st.ghost:
+            if g[0] == 'inset_n' and g[1] == region and equal(st, g[2], t):
+                found = g[3]
+                if kind == 'in_set_n':
+                    return 'match' if found else 'mismatch'
+                return 'mismatch' if found else 'match'
+        return None
     if kind in ('in_set', 'not_in_set'):
         region = spec.test[1]
         xs = elem_values(st, text, t)
@@ -306,6 +315,73 @@ class Scan:
         else:
             self.check(False, 'result is true or false', f, None, repr(v))
 
+    # -------------------------------------------------------------- membership test written as an inner loop
+    def inner_scan(self, eng, n, states, f, t):
+        """for ( k = 0; k < count; ++k) if (set[ k] == text[ t]) <leave>;  - decided like the outer scan: starts at
+        the first character of the set, advances by one, ends only when all `count` characters were compared, goes
+        on only after a character differed and leaves early only on an equal character.  The states that leave
+        early carry the fact 'text[ t] is in the set', those that end the loop 'is not in the set'."""
+        spec = self.spec
+        region, count = spec.test[1], spec.test[2]
+        if n.get('k') != 'ForStmt':
+            return None
+        init, _cv, cond, inc, body = (n.get('c', []) + [None] * 5)[:5]
+        out = []
+        for s_in in states:
+            if s_in.status != 'normal':
+                out.append(s_in)
+                continue
+            cur = [s for s in eng.stmt(init, [s_in], f) if s.status == 'normal'] if init is not None else [s_in]
+            vars_, fields, havoc_this, incs, decs = eng.modified_in([cond, inc], f)
+            if len(vars_) != 1:
+                self.check(False, 'the membership loop has one position variable', f, n, str(sorted(vars_)))
+                return None
+            var = sorted(vars_)[0]
+            for s0 in cur:
+                k0 = s0.vars.get(var)
+                self.check(equal(s0, k0, lin(0)), 'the membership loop starts at the first character of the set', f,
+                           init or n, 'start %r' % (k0,))
+                head = s0.copy()
+                k = eng.fresh('setpos', head, 'unsigned long')
+                head.assume(ge(k, 0))
+                head.vars[var] = k
+                for truth, s1 in eng.cond(cond, head, f):
+                    if not truth:
+                        self.check(holds(s1, ge(k, count)), 'the membership loop ends only when all characters of the '
+                                   'set were compared', f, cond, 'ends at %r of %r' % (k, count))
+                        s1.ghost.append(('inset_n', region, t, False))
+                        out.append(s1)
+                        continue
+                    self.check(holds(s1, lt(k, count)), 'the membership loop compares only characters of the set', f,
+                               cond, 'position %r, count %r' % (k, count))
+                    for r in eng.stmt(body, [s1], f):
+                        # what does the path know about  set[ k]  versus  text[ t] ?
+                        rel = None
+                        for x in elem_values(r, 'this.mString', t):
+                            for y in elem_values(r, region, k):
+                                if equal(r, x, y):
+                                    rel = 'eq'
+                                elif differs(r, x, y):
+                                    rel = rel or 'ne'
+                        if r.status in ('return', 'break'):
+                            self.check(rel == 'eq', 'the membership loop is left early only on an equal character', f,
+                                       body, 'relation %s on the path [%s]' % (rel, self.trail(r)))
+                            r.ghost.append(('inset_n', region, t, True))
+                            if r.status == 'break':
+                                r.status = 'normal'
+                            out.append(r)
+                        elif r.status in ('normal', 'continue'):
+                            r.status = 'normal'
+                            self.check(rel == 'ne', 'the membership loop goes on only after a character differed', f,
+                                       body, 'relation %s on the path [%s]' % (rel, self.trail(r)))
+                            for _, s2 in eng.ev(inc, r, f):
+                                k2 = s2.vars.get(var)
+                                self.check(equal(s2, k2, k + 1), 'the membership loop advances by one character', f, inc,
+                                           'next %r after %r' % (k2, k))
+                        else:
+                            out.append(r)
+        return out
+
     # -------------------------------------------------------------- the scan
     def loop(self, n, states, f):
         eng, spec = self.eng, self.spec
@@ -365,7 +441,13 @@ class Scan:
                     seen = seen or d
                     self.check(holds(s1, *spec.cand(t)), 'V3 every tested position is a candidate position', f, cond,
                                'tested position %r is not provably a candidate on the path [%s]' % (t, self.trail(s1)))
-                    for r in eng.stmt(body, [s1], f):
+                    if spec.test[0] in ('in_set_n', 'not_in_set_n'):
+                        eng.cfg['loop_override'] = lambda e_, n_, sts, fn_: self.inner_scan(e_, n_, sts, fn_, t)
+                    try:
+                        body_results = eng.stmt(body, [s1], f)
+                    finally:
+                        eng.cfg.pop('loop_override', None)
+                    for r in body_results:
                         if r.status == 'return':
                             v = r.ret
                             good = isinstance(v, Lin) and (equal(r, v, t) if spec.result == 'index'
